@@ -266,7 +266,7 @@ def _generate_window_strategies():
       exec(sdict._code_template.format(**wnd_dict), ns, ns)
       reduce(lambda func, dec: dec(func), decorators, ns[sname])
       if not wnd_dict.get("distinct", True):
-        wsymm[sname] = window[sname]
+        wsymm[names] = window[sname]
         break
     wsymm[sname].periodic = window[sname].periodic = window[sname]
     wsymm[sname].symm = window[sname].symm = wsymm[sname]
